@@ -68,6 +68,25 @@ PROPS = {
                        "Measured recalls of this run are listed under coverage.notes",
         "assumptions": COMMON_ASSUMPTIONS + ["recall floors: sampling on seeded families, averaged over repetitions; query floor asserted for the default tree-seeded search only"],
     },
+    "C04": {
+        "harness": "c04", "level": "proof", "category": "proof", "design_ref": "DESIGN.md 5/C04", "translators": [],
+        "technique": "Lean 4 proof (invariant by induction over every operation history of a life-cycle state machine, for all forest / NN-descent oracles) + comparison of the model with the real object after every operation of seeded histories + C01/C02 predicates against the model's logical dataset",
+        "text": "Model/Index.lean follows update / _init_search_graph / compress_index / __getstate__ as written (restore caller order by "
+                "argsort(_vertex_order) iff the attribute exists, write replacements, append, reset rows and references of replaced points, "
+                "re-seed, rebuild search structures iff any existed, refuse a compressed index or an invalid row number before touching "
+                "anything); rows carry (identity, version) tags. Lean proves perm_roundtrip, history_inv (for every finite history and every "
+                "vertex-order / found-neighbour oracle: _raw_data is the logical dataset in vertex order, one graph row per logical point owned by "
+                "its current version, no tag of a replaced row survives, the compiled closure was built over the current rows), "
+                "logical_dataset_spec (the logical dataset is the original rows with replacements applied followed by appended rows in order), "
+                "update_refused_leaves_state / update_bad_index_leaves_state. Seeded histories over {prepare, query, update fresh / replace / both / "
+                "invalid index, pickle, compress_index} on dense float and bit-packed indexes are run on the real code; after every operation the "
+                "model (fed with the real vertex orders) must agree on row count, existence of _vertex_order / graph, compressed flag, error kind and "
+                "_raw_data == logical[stored order], and the C01 / C02 predicates are evaluated against the logical dataset",
+        "note": TB + "NN-descent and the forest are oracle inputs of the life-cycle model (their own properties are C01/C14); the correspondence with the real "
+                     "object is sampled on seeded histories; pickling itself is C06",
+        "explanation": "invariant theorem over all histories and oracles; model vs real object after every op; truthfulness predicates vs logical dataset",
+        "assumptions": COMMON_ASSUMPTIONS + ["sparse indexes cannot be updated (NotImplementedError) and are outside C04's quantifier"],
+    },
     "C05": {
         "harness": "c05", "level": "proof", "category": "proof", "design_ref": "DESIGN.md 5/C05, 4.6, 2.3", "translators": ["prange"],
         "technique": "Lean 4 proof (schedule independence of non-interfering loops) + decide over per-iteration memory footprints regenerated from the source + bit-for-bit repetition",
@@ -178,6 +197,22 @@ PROPS = {
         "explanation": "theorem over all input classes and histories; byte-for-byte comparison on real histories; alias bit vs shares_memory",
         "assumptions": ["numpy fancy/boolean indexing, astype, vstack, ascontiguousarray of a permuted array and scipy sorted_indices return new buffers",
                         "numba kernels do not write the data / query arrays they are given (sampled by the byte comparison)"],
+    },
+    "C18": {
+        "harness": "c18", "level": "proof", "category": "proof", "design_ref": "DESIGN.md 5/C18", "translators": [],
+        "technique": "Lean 4 proof (coo -> tocsr assembly stores exactly the found slots when row indices are distinct) + entry-for-entry, bit-for-bit comparison of transform / fit_transform with the index's own output",
+        "text": "Model/Transformer.lean models transform's assembly: one COO triple per slot with index >= 0 (the found mask), scipy tocsr = canonical "
+                "order with equal coordinates summed. Lean proves transform_entries: when every row's non-negative indices are distinct (C02) the "
+                "stored entries are exactly {(i, idx[i][j], dist[i][j]) : idx[i][j] >= 0}, their number is the number of found slots, rows < #queries, "
+                "columns < n_fit, coordinates strictly increasing; fit_transform_row_count (n_neighbors+1 entries per full row); and, as examples, that "
+                "a duplicate coordinate (the pre-repair -1 translation) is summed. On the real code transform(X) is compared with "
+                "index_.query(X, n_neighbors, search_epsilon) and fit_transform(X) with the neighbor graph of an identically seeded index, triple for "
+                "triple with float32 bit patterns, across metrics, data kinds and transformer parameters; the assembly is also compared with the Lean "
+                "model through the driver; values are checked against the float64 metric reference",
+        "note": TB + "scipy's coo_matrix.tocsr() sums duplicates and keeps explicit zeros (modelled, compared on every case); fit_transform is compared with a "
+                     "second, identically seeded fit (reproducibility is C05)",
+        "explanation": "assembly theorem for all answer arrays; exact comparison of real transform / fit_transform with index output and with the model",
+        "assumptions": COMMON_ASSUMPTIONS,
     },
     "C19": {
         "harness": "c19", "translators": ["threads"], "level": "proof", "category": "proof", "design_ref": "DESIGN.md 5/C19, 2.3",
